@@ -43,7 +43,7 @@ def r12_1(ctx, R):
                 continue  # wrapper forwards the poll it received itself
             n += 1
             ctx.ob("R12.1", b, "child-poll-only-in-drain@%s" % _site_label(b, bb), b.path in drains, b.loc(bb))
-    ctx.floor("R12.1", "child-poll-sites", n, 1, 1)
+    ctx.floor("R12.1", "child-poll-sites", n, 1)
     it_fns = [x for x in R.slotmap_methods if re.search(r"::iter_mut$", x.path)] + \
              [x for x in ctx.facts.fn_bodies() if re.search(r"SlotMapIterMut.* as core::iter::Iterator>::next$", x.path)]
     m = 0
@@ -90,7 +90,7 @@ def r12_2(ctx, R):
             n += 1
             ok = any(b.dominates(x, bb) for x in falseb) and _writes_true_before(ctx, R, b, bb)
             ctx.ob("R12.2", b, "enqueue-only-on-false->true@%s" % _site_label(b, bb), ok, b.loc(bb))
-    ctx.floor("R12.2", "enqueue-sites", n, 2, 2)
+    ctx.floor("R12.2", "enqueue-sites", n, 2)
     mark = R.mark_fn
     ins = R.insert_fn
     k = 0
@@ -116,7 +116,7 @@ def r12_2(ctx, R):
                         if not any(ds in b.loops()[h] for ds in drain_sites):
                             in_loop_ok = False  # a marking loop of its own: more than one token per yielded item
         ctx.ob("R12.2", b, "mark-caller-role", role is not None and in_loop_ok, b.loc(ss[0][0]), "role: %s" % role)
-    ctx.floor("R12.2", "mark-callers", k, 3, 3)
+    ctx.floor("R12.2", "mark-callers", k, 3)
     c01.r1_6(ctx, R)
     ctx.rule("R1.6", "see C01 R1.6 (shared): the merge re-arm marks exactly the slot that yielded")
 
